@@ -1,6 +1,7 @@
 package valset
 
 import (
+	"golang.org/x/mod/semver"
 	"time"
 
 	sdkmath "cosmossdk.io/math"
@@ -217,18 +218,35 @@ func VerifC12_Sentences() {
 
 func VerifC12_MinVersion() {
 	env := keeper.NewVEnv(100)
-	versions := []string{"v1.11.3", "v1.12.0", "v2.0.0", "v2.1.0"}
-	a, b := sym.Choice("first", 4), sym.Choice("second", 4)
-	if err := env.K.SetPigeonRequirements(env.Ctx, &types.PigeonRequirements{MinVersion: versions[a]}); err != nil {
-		panic(err)
+	// the first step may be missing: a chain whose genesis stored no requirement runs
+	// with the built-in default minimum
+	versions := []string{"v1.0.0", "v1.11.3", "v1.12.0", "v2.0.0", "v2.1.0"}
+	effective := "v1.11.3" // the default while nothing is stored
+	if sym.Bool("a-requirement-is-already-stored") {
+		a := 1 + sym.Choice("first", 4)
+		if err := env.K.SetPigeonRequirements(env.Ctx, &types.PigeonRequirements{MinVersion: versions[a]}); err != nil {
+			panic(err)
+		}
+		effective = versions[a]
+	} else {
+		sym.Reach("default-minimum-in-force")
 	}
+	before, _ := env.K.PigeonRequirements(env.Ctx)
+	sym.Assert(before.MinVersion == effective, "effective-minimum-is-the-stored-one-or-the-default")
+	b := sym.Choice("second", 5)
 	err := env.K.SetPigeonRequirements(env.Ctx, &types.PigeonRequirements{MinVersion: versions[b]})
 	req, _ := env.K.PigeonRequirements(env.Ctx)
 	sym.Reach("min-version")
-	if b < a {
-		sym.Assert(err != nil && req.MinVersion == versions[a], "minimum-version-never-decreases")
+	if semver.Compare(versions[b], effective) < 0 {
+		sym.Assert(err != nil && req.MinVersion == effective, "minimum-version-never-decreases")
 	} else {
 		sym.Assert(req.MinVersion == versions[b], "minimum-version-raised")
+	}
+	// a relayer older than the minimum in force is refused
+	env.Staking.Add(keeper.VVals[0], stakingtypes.Bonded, false, sdkmath.NewInt(1_000_000), 1)
+	kerr := env.K.KeepValidatorAlive(env.Ctx, keeper.VVals[0], "v1.5.0")
+	if semver.Compare("v1.5.0", req.MinVersion) < 0 {
+		sym.Assert(kerr != nil, "outdated-relayer-is-refused")
 	}
 }
 
